@@ -364,3 +364,115 @@ def graph_node_links(ctx):
         else:
             ctx.inconclusive.append(f"vacuity: '{lab}' never reached")
     ctx.sample({"paths": E.paths})
+
+
+# ---------------------------------------------------------------------------------------
+# O4: the "Read more" link that FortranBase.markdown() appends to a summary points at the entity's own page: a summary may
+# only be printed for an entity that has one, i.e. a visible entity
+# ---------------------------------------------------------------------------------------
+def _docstring_macro_sites():
+    """[(condition term over Bool full_docstring / Bool visible, line)] for every summary print inside macro `docstring`"""
+    import os
+    import ford.output as out
+    from jinja2 import nodes
+
+    path = os.path.join(os.path.dirname(out.__file__), "templates", "macros.html")
+    src = open(path).read()
+    tree = out.env.parse(src)
+    full, vis = z3.Bool("full_docstring"), z3.Bool("entity_visible")
+    unknown = []
+
+    def truth(e, ent):
+        if isinstance(e, nodes.Name):
+            if e.name == "full_docstring":
+                return full
+            unknown.append(z3.Bool(f"unknown_{len(unknown)}"))
+            return unknown[-1]
+        if isinstance(e, nodes.Getattr) and isinstance(e.node, nodes.Name) and e.node.name == ent and e.attr == "visible":
+            return vis
+        if isinstance(e, nodes.Not):
+            return z3.Not(truth(e.node, ent))
+        if isinstance(e, nodes.And):
+            return z3.And(truth(e.left, ent), truth(e.right, ent))
+        if isinstance(e, nodes.Or):
+            return z3.Or(truth(e.left, ent), truth(e.right, ent))
+        unknown.append(z3.Bool(f"unknown_{len(unknown)}"))  # unconstrained: the summary may be printed
+        return unknown[-1]
+
+    sites = []
+
+    def prints_summary(n, ent):
+        for f in n.find_all(nodes.Filter):
+            if f.name == "meta" and f.args and isinstance(f.args[0], nodes.Const) and f.args[0].value == "summary" \
+                    and isinstance(f.node, nodes.Name) and f.node.name == ent:
+                return True
+        return False
+
+    def walk(body, conds, ent):
+        for n in body:
+            if isinstance(n, nodes.If):
+                c = truth(n.test, ent)
+                walk(n.body, conds + [c], ent)
+                neg = [z3.Not(c)]
+                for el in n.elif_:
+                    ce = truth(el.test, ent)
+                    walk(el.body, conds + neg + [ce], ent)
+                    neg.append(z3.Not(ce))
+                walk(n.else_, conds + neg, ent)
+            elif isinstance(n, nodes.Output):
+                if prints_summary(n, ent):
+                    sites.append((z3.And(*conds) if conds else z3.BoolVal(True), n.lineno))
+            else:
+                for fld in ("body", "else_"):
+                    v = getattr(n, fld, None)
+                    if isinstance(v, list):
+                        walk(v, conds, ent)
+
+    macros = [m for m in tree.find_all(nodes.Macro) if m.name == "docstring"]
+    for m in macros:
+        ent = m.args[0].name
+        walk(m.body, [], ent)
+    return src, sites, vis, full, len(macros)
+
+
+G9B = {"a.f90": ["module shapes", "private", "public :: circle", "type circle", "real :: r", "contains", "procedure :: area => circle_area",
+                 "end type circle", "contains", "function circle_area(self)", "!! First paragraph of the summary.", "!!",
+                 "!! Second paragraph: the full text is longer than the summary.", "class(circle) :: self", "real :: circle_area",
+                 "end function circle_area", "end module shapes"]}
+
+
+def replay_summary_link(w):
+    files = {k: "\n".join(v) + "\n" for k, v in G9B.items()}
+    d, outdir, rc, log = fordrun.run_ford(files, {"search": "false"})
+    try:
+        broken = fordrun.broken_links(outdir) if rc == 0 else [("ford failed", log[-300:])]
+    finally:
+        import shutil
+        shutil.rmtree(d, ignore_errors=True)
+    return bool(broken), {"project": "module with default private, public type with a binding to a private, documented (two paragraphs) procedure",
+                          "broken links": broken[:5]}
+
+
+@obligation("C09", "O4.summary-link-implies-page", engine="JX", timeout=300)
+def summary_link(ctx):
+    """macro `docstring`: every branch that prints an entity's summary (which ends in a "Read more" link to the entity's page) is
+    guarded by a condition that implies `entity.visible` (hidden entities have no page)"""
+    import ford.sourceform as sf
+
+    src, sites, vis, full, nm = _docstring_macro_sites()
+    ctx.encode_text("templates/macros.html", src, "jinja-template")
+    ctx.encode_fn(sf.FortranBase.markdown)
+    ctx.bounds.update({"macros": "docstring", "summary print sites": len(sites), "operands": "every truthiness"})
+    if nm != 1 or not sites:
+        ctx.inconclusive.append(f"macro `docstring` / its summary print site not found ({nm} macros, {len(sites)} sites)")
+        return
+    if "Read more" not in __import__("inspect").getsource(sf.FortranBase.markdown):
+        ctx.inconclusive.append("FortranBase.markdown no longer appends a 'Read more' link: obligation needs review")
+        return
+    for cond, line in sites:
+        ctx.twin(f"macros.html:{line} summary can be printed", [cond])
+        r, m = ctx.solve(f"macros.html:{line}: summary printed ⇒ entity.visible", [cond, z3.Not(vis)])
+        if r == "sat":
+            ctx.report(f"macros.html:{line}: a hidden entity's summary (with its 'Read more' link) is printed",
+                       {"full_docstring": z3.is_true(m.eval(full, model_completion=True)), "entity.visible": False}, replay_summary_link)
+    ctx.sample({"sites": [l for _, l in sites]})
